@@ -305,7 +305,8 @@ def r4_refusal(ctx):
     fn, cfg = roles.fn, roles.cfg
     ctx.analysed(fn)
     refusals = [n for n in fn.node.body if isinstance(n, ast.If) and body_always_raises(n.body) and isinstance(n.test, ast.Name)]
-    ctx.floor('C15.R4', '"names not available -> raise" test', len(refusals))
+    if not refusals:
+        ctx.fail('C15.R4', f'{func_label(fn)}|refusal-dominates-deletion', loc(fn, fn.node), 'delete_snapshots has no "requested names that are not available -> raise" test before the deletions: a request naming an unknown snapshot is executed in part')
     after = cfg.nodes_of(roles.loop, 'join')
     for r in refusals:
         ok = all(cfg.set_dominates(after, x) for x in cfg.nodes_of(r, 'test'))
